@@ -28,11 +28,12 @@ class LoopSpec(object):
         self.by_prop = {}        # property id -> {'head': [...], 'tail': [...], 'invariants': [...]}
         self.havoc_stmts = []
 
-    def for_prop(self, pid, head=(), tail=(), invariants=()):
-        d = self.by_prop.setdefault(pid, {'head': [], 'tail': [], 'invariants': []})
+    def for_prop(self, pid, head=(), tail=(), invariants=(), consts=()):
+        d = self.by_prop.setdefault(pid, {'head': [], 'tail': [], 'invariants': [], 'consts': []})
         d['head'].extend(head)
         d['tail'].extend(tail)
         d['invariants'].extend(invariants)
+        d.setdefault('consts', []).extend(consts)
         return self
 
     def parts(self, pid):
@@ -268,6 +269,20 @@ def apply_contract(it, fv, args, kwargs):
         v = spec_eval(it, expr, fr)
         it.p.oblige('%s#pre:%s@%s' % (c.qualname, label, caller), as_formula(it, v), kind='pre')
     if getattr(c, 'result_expr', None) is not None:
+        # possible exceptional outcomes first (declared with may_raise / raises_iff)
+        if c.raises:
+            opts = [('raise', exc, True if when is None else as_formula(it, spec_eval(it, when, fr)))
+                    for exc, when, exact in c.raises]
+            opts.append(('normal', None, True))
+            kind, exc, _ = opts[_choose_outcome(it, opts, c)]
+            if kind == 'raise':
+                cls = it.builtins.get(exc)
+                if cls is None:
+                    from .verify import resolve_exc
+                    cls = resolve_exc(it, exc)
+                if cls is None:
+                    raise Unsupported('unknown exception class %s in contract %s' % (exc, c.qualname))
+                it.raise_exc(cls, 'by contract of %s' % c.qualname)
         result = spec_eval(it, c.result_expr, fr)
         fr.locals['result'] = result
         for src in getattr(c, 'post_effects', ()):
